@@ -537,9 +537,9 @@ class PrecipitateModel (PrecipitateBase):
         self.dTemp += T - self.pData.temperature[self.pData.n]
         if np.abs(self.dTemp) > self.constraints.maxTempChange:
             xEqAlpha, xEqBeta = self._createLookupBinary(T)
+            self.dTemp = 0
         else:
             xEqAlpha, xEqBeta = np.array([self.pData.xEqAlpha[self.pData.n]]), np.array([self.pData.xEqBeta[self.pData.n]])
-            self.dTemp = 0
         Y.xEqAlpha = xEqAlpha
         Y.xEqBeta = xEqBeta
         
